@@ -179,11 +179,11 @@ static void emitVstepIn(const Setup& S, double hcur, double tMax) {
     in.d(hcur).d(tMax).d(S.umin > 0 ? S.umin : -1.0).d(S.umax > 0 ? S.umax : -1.0); in.emit();
 }
 static void emitVstepOut(double t1, const Vector& y1, double hLast, double hNext, int nFail, const std::string& tag,
-                         const std::string& method) {
+                         const std::string& method, int nConvFail = 0) {
     vh::Line out = vh::O("vstep"); out.d(t1);
     for (int i = 0; i < y1.size(); ++i) out.d(y1[i]);
     out.d(hLast).d(hNext).i(nFail); out.emit();
-    vh::D("vstep." + method + "." + tag + (nFail ? ".retried" : ".firsttry"));
+    vh::D("vstep." + method + "." + tag + (nFail ? ".retried" : ".firsttry") + (nConvFail ? ".nonconv" : ""));
 }
 // fresh integrator at (t0,y0) with step size hcur, tMax = final time: exactly one internal step
 static void vstepFresh(Setup S, double hcur, double tMax, const std::string& tag) {
@@ -195,7 +195,8 @@ static void vstepFresh(Setup S, double hcur, double tMax, const std::string& tag
         int guard = 0;
         while (integ->getNumStepsTaken() < 1 && guard++ < 5) integ->stepTo(Infinity);
         emitVstepOut(integ->getAdvancedTime(), integ->getAdvancedState().getY(), integ->getPreviousStepSizeTaken(),
-                     integ->getPredictedNextStepSize(), integ->getNumErrorTestFailures(), tag, S.method);
+                     integ->getPredictedNextStepSize(), integ->getNumErrorTestFailures(), tag, S.method,
+                     integ->getNumConvergenceTestFailures());
     } catch (const std::exception& e) { std::printf("O vstep EXC\n"); }
 }
 // a whole simulation with report times; every internal step becomes a vstep record
@@ -311,6 +312,21 @@ struct Problem {
             }
             y[0] = (double)q; y[1] = (double)u; }
     }
+    // max_i |d^4 y_i/dt^4 (t)| / scale of the exact solution (for the cubic-Hermite error term h^4/384 * max|y''''|)
+    double d4(double t) const {
+        std::vector<double> ex(y0.size()); exact(t, ex.data());
+        double sc = 1; for (double x : ex) sc = std::max(sc, std::abs(x));
+        double m = 0;
+        if (name == "sho") { const double w4 = std::pow(par[0], 4); m = w4 * std::max(std::abs(ex[0]), std::abs(ex[1])); }
+        else if (name == "spiral") { const double l2 = par[0] * par[0] + par[1] * par[1]; m = l2 * l2 * std::hypot(ex[0], ex[1]); }
+        else if (name == "stiffish") { m = std::max(std::pow(par[0], 4) * std::abs(ex[0]), std::pow(par[1], 4) * std::abs(ex[1])); }
+        else if (name == "forced") { const double c0 = par[0], c1 = par[1], c2 = par[2], ga = c2, be = c1 - 2 * ga, al = c0 - be;
+            m = std::abs((y0[0] - (al + be * t0 + ga * t0 * t0)) * std::exp(-(t - t0))); }
+        else { const double g = par[0], q = ex[0], u = ex[1], sq = std::sin(q), cq = std::cos(q);
+            const double q4 = g * sq * (g * cq + u * u), q5 = g * u * (cq * (g * cq + u * u) - 3 * g * sq * sq);
+            m = std::max(std::abs(q4), std::abs(q5)); }
+        return m / sc;
+    }
     double err(double t, const Vector& y) const {   // relative-to-scale infinity-norm error
         std::vector<double> ex(y0.size()); exact(t, ex.data());
         double sc = 1, e = 0;
@@ -346,26 +362,32 @@ static int nominalOrder(const std::string& m) {
     if (m == "rk2" || m == "verlet") return 2;
     return 1;
 }
-// max of global_err/acc measured on the clean tree (3 thorough-size runs, ~1.4e4 ladder points, see notes/C20.md),
-// times ~10:  rk2 10, rk3 14, cpodes_adams 125, see2 160, verlet 216, cpodes_bdf 250, merson 419, rkf 633, euler 1180
-static double globalErrBound(const std::string& m) {
-    if (m == "rk2") return 100;
-    if (m == "rk3") return 140;
-    if (m == "cpodes_adams") return 1300;
-    if (m == "see2") return 1600;
-    if (m == "cpodes_bdf" || m == "verlet") return 2500;
-    if (m == "merson") return 4500;
-    if (m == "rkf") return 6500;
-    return 13000;   // euler
+// Bounds of the accuracy predicates: ~3x the maximum measured on the clean tree (seeds 1,2,3 quick, thorough seed 1 and
+// more thorough-size seeds; table generated by the measurement script described in notes/C20.md).
+//   key "<method>.<problem>.<rms|inf>.<loose|tight>" -> bound of global_err/acc   (loose: acc >= 1e-5, tight: acc < 1e-5)
+//   key "<method>.<problem>.<rms|inf>.step"          -> bound of global_err/(acc*steps)
+//   key "<method>.h4"                                -> bound of interp_err / max(step errs, acc, h^4/384 max|y''''|)
+#include <map>
+static const std::map<std::string, double>& boundTable() {
+    static const std::map<std::string, double> T = {
+/*BOUNDS-BEGIN*/
+/*BOUNDS-END*/
+    };
+    return T;
+}
+static double boundOf(const std::string& key) {
+    auto it = boundTable().find(key);
+    return it == boundTable().end() ? NAN : it->second;   // an unmeasured cell fails loudly instead of passing silently
 }
 // global error over [t0,t0+T] at nrep equally spaced report times, default options (interpolation allowed)
 static int g_lastSteps = 0;
-static double runGlobal(const std::string& method, const Problem& P, double acc, int nrep, double fixedH = -1) {
+static double runGlobal(const std::string& method, const Problem& P, double acc, int nrep, double fixedH = -1, bool useInf = false) {
     OdeSystem sys(P.rhs);
     State s = initialState(sys, P.t0, P.y0);
     std::unique_ptr<Integrator> integ = makeInteg(method, sys);
     if (fixedH > 0) { integ->setFixedStepSize(fixedH); integ->setAccuracy(1e-9); }   // accuracy: only Verlet's iteration tolerance
     else integ->setAccuracy(acc);
+    if (useInf) integ->setUseInfinityNorm(true);
     integ->initialize(s);
     double worst = 0;
     for (int k = 1; k <= nrep; ++k) {
@@ -377,21 +399,25 @@ static double runGlobal(const std::string& method, const Problem& P, double acc,
     g_lastSteps = integ->getNumStepsTaken();
     return worst;
 }
-static void ladderCase(const std::string& method, const Problem& P, const std::vector<double>& accs) {
-    vh::Line in = vh::I("acc"); in.s("ladder").s(method); emitProblem(in, P); in.i((long long)accs.size()); for (double a : accs) in.d(a); in.emit();
+static void ladderCase(const std::string& method, const Problem& P, const std::vector<double>& accs, bool useInf) {
+    vh::Line in = vh::I("acc"); in.s("ladder").s(method); emitProblem(in, P); in.i(useInf ? 1 : 0);
+    in.i((long long)accs.size()); for (double a : accs) in.d(a); in.emit();
     std::printf("O acc 1\n");
-    vh::D("acc.ladder." + method + "." + P.name);
-    const std::string key = method + "." + P.name;
+    const std::string norm = useInf ? "inf" : "rms";
+    vh::D("acc.ladder." + method + "." + P.name + "." + norm);
+    const std::string key = method + "." + P.name + "." + norm;
     std::vector<double> errs;
     for (double a : accs) {
         double e;
-        try { e = runGlobal(method, P, a, 10); } catch (const std::exception&) { e = NAN; }
+        try { e = runGlobal(method, P, a, 10, -1, useInf); } catch (const std::exception&) { e = NAN; }
         errs.push_back(e);
-        vh::P("global_err_over_acc", key + ".global_err", e / a, globalErrBound(method));
-        vh::P("global_err_per_step_over_acc", key + ".err_per_step", e / (a * std::max(1, g_lastSteps)), 100);
+        char tag[48]; std::snprintf(tag, sizeof tag, "acc.ladder.acc1e%d.%s", (int)std::lround(std::log10(a)), norm.c_str());
+        vh::D(tag);
+        vh::P("global_err_over_acc", key + ".global_err", e / a, boundOf(key + (a >= 1e-5 ? ".loose" : ".tight")));
+        vh::P("global_err_per_step_over_acc", key + ".err_per_step", e / (a * std::max(1, g_lastSteps)), boundOf(key + ".step"));
     }
     for (size_t i = 0; i + 1 < accs.size(); ++i)
-        vh::P("tighten_not_worse", key + ".tighten", errs[i + 1] / std::max(errs[i], accs[i + 1]), 4);
+        vh::P("tighten_not_worse", key + ".tighten", errs[i + 1] / std::max(errs[i], accs[i + 1]), 3.5);
 }
 static void orderCase(const std::string& method, const Problem& P, double h) {
     vh::Line in = vh::I("acc"); in.s("order").s(method); emitProblem(in, P); in.d(h); in.emit();
@@ -419,7 +445,7 @@ static void interpCase(const std::string& method, const Problem& P, double acc, 
     vh::Line in = vh::I("acc"); in.s("interp").s(method); emitProblem(in, P); in.d(acc).i((long long)reports.size()); for (double r : reports) in.d(r); in.emit();
     std::printf("O acc 1\n");
     vh::D("acc.interp." + method + "." + P.name);
-    double worstRatio = 0; int nInterp = 0;
+    double worstRatio = 0, worstH4 = 0; int nInterp = 0;
     try {
         OdeSystem sys(P.rhs);
         State s = initialState(sys, P.t0, P.y0);
@@ -427,7 +453,7 @@ static void interpCase(const std::string& method, const Problem& P, double acc, 
         integ->setAccuracy(acc);
         integ->setReturnEveryInternalStep(true);
         integ->initialize(s);
-        double ePrev = 0;   // error of the step state at the start of the current step
+        double ePrev = 0, tPrev = P.t0;   // error / time of the step state at the start of the current step
         std::vector<double> pending; // errors of interpolated states inside the current step
         size_t idx = 0; int guard = 0;
         while (idx < reports.size() && guard++ < 2000000) {
@@ -437,14 +463,26 @@ static void interpCase(const std::string& method, const Problem& P, double acc, 
             const double e = P.err(integ->getTime(), integ->getState().getY());
             if (st == Integrator::ReachedReportTime) ++idx;
             if (interp) { pending.push_back(e); continue; }
-            // a step state: close the step
-            for (double ei : pending) { worstRatio = std::max(worstRatio, ei / std::max(std::max(ePrev, e), acc)); ++nInterp; }
-            pending.clear(); ePrev = e;
+            // a step state: close the step [tPrev, t]
+            const double t = integ->getTime(), h = t - tPrev;
+            if (!pending.empty()) {
+                const double m4 = std::max(P.d4(tPrev), std::max(P.d4(tPrev + h / 2), P.d4(t)));
+                const double hermite = h * h * h * h / 384 * m4;   // error of cubic Hermite interpolation of exact data
+                for (double ei : pending) {
+                    worstRatio = std::max(worstRatio, ei / std::max(std::max(ePrev, e), acc));
+                    worstH4 = std::max(worstH4, ei / std::max(std::max(std::max(ePrev, e), acc), hermite));
+                    ++nInterp;
+                }
+            }
+            pending.clear(); ePrev = e; tPrev = t;
         }
-    } catch (const std::exception&) { worstRatio = NAN; }
-    // cubic Hermite (3rd order) under the two 4th-order methods: own keys (see notes/C20.md, finding)
+    } catch (const std::exception&) { worstRatio = worstH4 = NAN; }
+    // the property's literal clause; cubic Hermite (3rd order) under the two 4th-order methods: own (known) keys
     const std::string key = (method == "rkf" || method == "merson") ? method + ".hermite.interp" : method + "." + P.name + ".interp";
     vh::P("interp_vs_steps", key, worstRatio, 4);
+    // enforced for every method incl. rkf/merson: an interpolated state may be worse than its neighbours only by the
+    // interpolation error of cubic Hermite itself, h^4/384 max|y''''|
+    vh::P("interp_vs_steps_or_hermite_h4", method + "." + P.name + ".interp_h4", worstH4, boundOf(method + ".h4"));
 }
 static const char* PROBLEMS[] = {"sho", "spiral", "stiffish", "forced", "pend"};
 static const char* ACCM[] = {"merson", "rkf", "rk3", "rk2", "verlet", "cpodes_bdf", "cpodes_adams", "euler", "see2"};
@@ -455,11 +493,11 @@ static long accuracyCase(vh::Rng& g, bool thorough) {
     Problem P = randomProblem(g, pn);
     if (kind <= 1) {
         const std::string m = ACCM[g.below(9)];
-        std::vector<double> accs;
-        if (m == "euler" || m == "see2") accs = {1e-1, 1e-3};            // first-order methods: loose accuracies only (cost)
-        else if (m == "rk2" || m == "verlet") accs = {1e-2, 1e-4, 1e-6};
-        else accs = thorough ? std::vector<double>{1e-2, 1e-3, 1e-5, 1e-7, 1e-9} : std::vector<double>{1e-2, 1e-4, 1e-6, 1e-8};
-        ladderCase(m, P, accs);
+        // four accuracies two decades apart starting at 1e-2 or 1e-3: every ladder spans 1e-2..1e-8 or 1e-3..1e-9
+        const int e0 = 2 + g.below(2);
+        std::vector<double> accs; for (int k = 0; k < 4; ++k) accs.push_back(std::pow(10.0, -(e0 + 2 * k)));
+        if ((m == "euler" || m == "see2") && !thorough) accs.resize(3);   // first-order methods: 1e-8/1e-9 only in the guaranteed block
+        ladderCase(m, P, accs, g.coin());
         return 4;
     } else if (kind == 2) {
         const char* fm[] = {"merson", "rkf", "rk3", "rk2", "verlet", "euler", "see", "see2"};
@@ -488,7 +526,7 @@ static void replayAccuracy(const std::string& what, const std::vector<std::strin
         const double t0 = vh::unhex(nx()), T = vh::unhex(nx());
         int ny = std::stoi(nx()); std::vector<double> y0(ny); for (auto& x : y0) x = vh::unhex(nx());
         Problem P = makeProblem(pname, par, t0, T, y0);
-        if (what == "ladder") { int n = std::stoi(nx()); std::vector<double> a(n); for (auto& x : a) x = vh::unhex(nx()); ladderCase(method, P, a); }
+        if (what == "ladder") { int ui = std::stoi(nx()); int n = std::stoi(nx()); std::vector<double> a(n); for (auto& x : a) x = vh::unhex(nx()); ladderCase(method, P, a, ui != 0); }
         else if (what == "order") { orderCase(method, P, vh::unhex(nx())); }
         else if (what == "interp") { double acc = vh::unhex(nx()); int n = std::stoi(nx()); std::vector<double> r(n); for (auto& x : r) x = vh::unhex(nx()); interpCase(method, P, acc, r); }
     } catch (const std::exception&) {}
@@ -537,8 +575,9 @@ int main(int argc, char** argv) {
     vh::Args args(argc, argv);
     if (args.mode == "replay") { replay(); return 0; }
     vh::Rng g(args.seed * 7919 + 20);
-    const char* ctl[] = {"merson", "rkf", "rk3", "rk2", "euler", "see2"};      // error-controlled, modelled
-    const char* all[] = {"merson", "rkf", "rk3", "rk2", "euler", "see2", "see"};
+    const char* ctl[] = {"merson", "rkf", "rk3", "rk2", "euler", "see2", "verlet"};      // error-controlled, modelled
+    const char* all[] = {"merson", "rkf", "rk3", "rk2", "euler", "see2", "see", "verlet"};
+    const int NCTL = 7, NALL = 8;
     const bool thorough = args.n > 2000;
     // deterministic witnesses (independent of the seed) of the two findings documented in notes/C20.md
     {
@@ -546,6 +585,15 @@ int main(int argc, char** argv) {
         std::vector<double> rep; for (int i = 1; i < 60; ++i) rep.push_back(0.05 * i - 0.013);
         interpCase("rkf", makeProblem("pend", {9.81}, 0.0, 3.0, {2.0, 0.0}), 1e-7, rep);
         interpCase("merson", makeProblem("spiral", {0.3, 2.5}, 0.0, 3.0, {1.0, 0.5}), 1e-9, rep);
+    }
+    // guaranteed share: every error-controlled integrator sees the whole range 1e-2..1e-9 in every run, alternating
+    // RMS / infinity norm and rotating the problem with the seed
+    for (int i = 0; i < 9; ++i) {
+        const std::string m = ACCM[i];
+        Problem P = randomProblem(g, PROBLEMS[(i + args.seed) % 5]);
+        const int e0 = 2 + (int)((i + args.seed / 5) % 2);
+        std::vector<double> accs; for (int k = 0; k < 4; ++k) accs.push_back(std::pow(10.0, -(e0 + 2 * k)));
+        ladderCase(m, P, accs, (i + args.seed) % 2 == 0);
     }
     // records are counted in units of "cases"; a simulation contributes several vstep records
     long produced = 0;
@@ -555,10 +603,10 @@ int main(int argc, char** argv) {
         std::vector<double> y0 = randomY(g, r.ny());
         const double t0 = g.below(3) == 0 ? 0.0 : g.range(-2, 2);
         if (stream <= 2) {                                   // fixed-step trajectories, all 7 modelled methods
-            trajCase(all[g.below(7)], r, t0, y0, g.range(0.005, 0.2), 1 + g.below(8), tag);
+            trajCase(all[g.below(NALL)], r, t0, y0, g.range(0.005, 0.2), 1 + g.below(8), tag);
             produced += 1;
         } else if (stream <= 3) {                            // simulations: realistic accept/reject/limited mix
-            Setup S; S.method = ctl[g.below(6)]; S.useInf = g.below(3) == 0; S.rhs = r; S.acc = randomAcc(g); S.t0 = t0; S.y0 = y0;
+            Setup S; S.method = ctl[g.below(NCTL)]; S.useInf = g.below(3) == 0; S.rhs = r; S.acc = randomAcc(g); S.t0 = t0; S.y0 = y0;
             if (S.method == "euler" || S.method == "see2") S.acc = std::pow(10.0, -g.range(1.0, 4.0));
             if (g.below(4) == 0) S.umax = g.range(0.02, 0.3);
             if (g.below(6) == 0) S.umin = g.range(1e-4, 1e-2);
@@ -569,7 +617,7 @@ int main(int argc, char** argv) {
             const int ms = 3 + g.below(6);
             produced += 1 + simCase(S, reports, g.coin(), ms, tag);
         } else if (stream <= 5) {                            // single steps from arbitrary step sizes: many retries / growth
-            Setup S; S.method = ctl[g.below(6)]; S.useInf = g.below(3) == 0; S.rhs = r; S.acc = randomAcc(g); S.t0 = t0; S.y0 = y0;
+            Setup S; S.method = ctl[g.below(NCTL)]; S.useInf = g.below(3) == 0; S.rhs = r; S.acc = randomAcc(g); S.t0 = t0; S.y0 = y0;
             const double hcur = std::pow(10.0, -g.range(0.3, 3.5));
             if (g.below(5) == 0) S.umax = hcur * g.range(1.0, 3.0);
             if (g.below(8) == 0) S.umin = hcur * g.range(0.05, 1.0);
@@ -579,7 +627,7 @@ int main(int argc, char** argv) {
             vstepFresh(S, hcur, tMax, tag + ".fresh");
             produced += 1;
         } else if (stream <= 8) {                            // interpolated report inside a step
-            Setup S; S.method = all[g.below(7)]; S.useInf = 0; S.rhs = r; S.acc = randomAcc(g); S.t0 = t0; S.y0 = y0;
+            Setup S; S.method = all[g.below(NALL)]; S.useInf = 0; S.rhs = r; S.acc = randomAcc(g); S.t0 = t0; S.y0 = y0;
             const double hcur = S.method == "see" ? g.range(0.01, 0.2) : std::pow(10.0, -g.range(0.8, 2.5));
             if (S.method == "see") { S.umin = S.umax = hcur; }
             const double tr = t0 + hcur * (g.below(6) == 0 ? g.range(1.0, 3.5) : g.range(0.02, 0.98));
